@@ -26,7 +26,7 @@ EXTENDS Integers, Sequences, FiniteSets, TLC, Json
 ExprPositions == {"rhs_constrain", "rhs_assign", "decl_init", "var_init", "var_assign", "arith", "cond", "index_rhs", "index_lhs",
                   "assert_arg", "log_arg", "return_arg", "call_arg", "template_param", "nested_input", "ceq_side", "ternary_arm",
                   "array_literal", "dimension", "while_cond", "statement"}
-AnonForms == {"anon1", "anon2", "anon_named", "anon_named_rev", "anon_param", "anon0", "anon_parallel", "anon_mixed_ops"}
+AnonForms == {"anon1", "anon2", "anon_named", "anon_named_rev", "anon_param", "anon0", "anon_parallel", "anon_mixed_ops", "anon_mixed_ops_rev"}
 TupleExprForms == {"tuple2", "tuple3"}
 TupleStmtForms == {"t_pair", "t_skip_first", "t_skip_last", "t_triple", "t_anon_outputs", "t_anon_outputs_skip", "t_length_mismatch",
                    "t_nested", "t_var_decl", "t_var_assign", "t_assign_op", "t_reversed", "t_all_skipped", "t_single"}
